@@ -1,0 +1,5 @@
+//go:build !verif
+
+package jparse
+
+func verifToken(t token, l *lexer, allowRegex bool) {}
